@@ -531,6 +531,7 @@ type FuncContract struct {
 	Modifies []string // heap names or "*"
 	Pure     bool     // function may be called inside specs (its ensures define result)
 	Trusted  bool     // body not verified (assumption, listed)
+	Pin      string   // trusted contracts are pinned to a hash of the function they were written for
 	Asserts  map[int][]*Clause // ghost asserts keyed by statement ordinal? (unused for now)
 	Props    []string // property ids this contract serves
 	Diag     bool     // explicit panics allowed (default true)
@@ -661,6 +662,12 @@ func parseContractText(pkg, fname, text string) (*ContractFile, error) {
 			cur.Pure = true
 		case "trusted":
 			cur.Trusted = true
+			// trusted pin=<hash>: the assumed contract was written for that version of the function
+			for _, f := range strings.Fields(rest) {
+				if strings.HasPrefix(f, "pin=") {
+					cur.Pin = strings.TrimPrefix(f, "pin=")
+				}
+			}
 		case "props":
 			cur.Props = strings.Fields(rest)
 		case "loop":
